@@ -18,6 +18,27 @@ for tc in ET.parse(junit).getroot().iter('testcase'):
         passed.add('%s::%s' % (tc.get('classname'), tc.get('name')))
 os.unlink(junit)
 missing = [t for t in base['stable_pass'] if t not in passed]
+# wall-clock sensitive tests (twisted timers) can fail when the machine is heavily loaded: give the
+# ones that did not pass two more chances, on their own
+for attempt in range(2):
+    if not missing or len(missing) > 15:
+        break
+    ids = []
+    for t in missing:
+        cls, name = t.split('::')
+        parts = cls.split('.')
+        ids.append('/'.join(parts[:-1]) + '.py::' + parts[-1] + '::' + name)
+    fd, junit = tempfile.mkstemp(suffix='.xml'); os.close(fd)
+    subprocess.run(['/venv/bin/python', '-m', 'pytest', '-q', '-p', 'no:cacheprovider', '--timeout=900',
+                    '--junitxml=' + junit] + ids, cwd=repo, env=env, stdout=subprocess.PIPE, stderr=subprocess.STDOUT, text=True)
+    try:
+        for tc in ET.parse(junit).getroot().iter('testcase'):
+            if not any(ch.tag in ('failure', 'error', 'skipped') for ch in tc):
+                passed.add('%s::%s' % (tc.get('classname'), tc.get('name')))
+    except Exception:
+        pass
+    os.unlink(junit)
+    missing = [t for t in base['stable_pass'] if t not in passed]
 print(p.stdout.strip().splitlines()[-1])
 print('stable_pass: %d/%d passed' % (len(base['stable_pass']) - len(missing), len(base['stable_pass'])))
 for m in missing[:40]:
